@@ -54,6 +54,9 @@ def geometry(spec):
         # power-of-ten log boxes (spec["decades"][i] = exponents of lb, plb, pub, ub): the images of the bounds sit exactly on the mesh
         dec = spec.get("decades") or [[-2, -1, 0, 1]] * D
         lb = [10.0 ** d[0] for d in dec]; plb = [10.0 ** d[1] for d in dec]; pub = [10.0 ** d[2] for d in dec]; ub = [10.0 ** d[3] for d in dec]
+    elif g == "farbasin":
+        # hard bounds far wider than the plausible box; optimum (spec["c_abs"]) and start far outside the plausible box, narrow basin
+        lb, ub, plb, pub = [-1e5] * D, [1e5] * D, [-1.0] * D, [1.0] * D
     elif g == "unbounded":
         lb, ub, plb, pub = [-inf] * D, [inf] * D, [-2.0] * D, [3.0] * D
     elif g == "mixed_unbounded":
@@ -94,6 +97,9 @@ def geometry(spec):
         for i in range(D):
             if math.isfinite(ub[i]):
                 c[i] = ub[i] + (ub[i] - lb[i]) * 0.3 if i % 2 == 0 else lb[i] - (ub[i] - lb[i]) * 0.3
+    if g == "farbasin":
+        c = [float(v) for v in spec["c_abs"][:D]]
+        x0 = [float(round(v)) for v in c]
     if g == "x0_absent":
         x0 = None
     return x0, lb, ub, plb, pub, c
@@ -136,6 +142,8 @@ def build(spec, fault=None):
             return float(np.sum(np.floor(np.abs(z) * 2.0)))
         if kind == "ties":
             return float(np.sum(np.round(z) ** 2))
+        if kind == "cauchy":     # heavy-tailed narrow basin: sum log1p(((x - c) / width)^2), widths in original units (spec["w_abs"])
+            return float(np.sum(np.log1p((z / 4 * scale / np.array(spec["w_abs"][:D])) ** 2)))
         raise ValueError(kind)
 
     def fun(x):
